@@ -104,7 +104,14 @@ func execC26Node(in core.Sexp) (string, bool) {
 		case "e":
 			s.TryFuse(node, balErr(op.Nth(1).Atom))
 		case "g":
-			pool.answer = op.Nth(1).Atom
+			// "poolclosed": the Get of a real connection pool that was never opened (the error the real
+			// code reports for a closed pool is not a connection error: seeded change C26-5)
+			if a := op.Nth(1).Atom; a == "poolclosed" {
+				node.ConnPool = backend.NewConnectionPool("n0:3306", "u", "p", "db", 1, 1, time.Second, "utf8mb4", 46, 0, "", "", time.Second)
+			} else {
+				node.ConnPool = pool
+				pool.answer = a
+			}
 			pc, err := s.GetSlaveConn(slaves, backend.LocalSlaveReadClosed)
 			if (err == nil) != (pc != nil) {
 				return "(conn-and-error-disagree)", true
@@ -204,7 +211,7 @@ func genC26(g *core.Gen) {
 		}
 	}
 	// node histories
-	kinds := []string{"conn", "conn", "conn", "timeout", "nil", "connptr", "wrapped", "other", "sqlerr"}
+	kinds := []string{"conn", "conn", "conn", "timeout", "nil", "connptr", "wrapped", "other", "sqlerr", "poolclosed"}
 	n = g.Scale(2000, 25000)
 	for i := 0; i < n; i++ {
 		var fuse core.Sexp
